@@ -10,6 +10,8 @@ Spec oracle on the implementation's outputs (independent of the model):
   (a) enforce => satisfiesBounds; in-bounds => unchanged (2*eps / equalStates); idempotent;
   (b) `samp` every output of the real default / compound / subspace / wrapper samplers' sampleUniform /
       sampleUniformNear / sampleGaussian satisfies the bounds (OMPL's rng_ cannot be scripted: implementation only);
+      `rebound`: sampler objects (default, compound, subspace, wrapper, a UniformValidStateSampler's inner sampler,
+      ScopedState::random()) allocated BEFORE setBounds() calls are judged against the CURRENT bounds;
   (c) `vs`   success => the last recorded validity answer about the returned state is `true` (and clearance >= bound
       for MinimumClearance);  `vreal`: the same with the real samplers and a pseudo-random recorded predicate,
       plus satisfiesBounds and an independent re-evaluation of the predicate on the returned state.
@@ -446,6 +448,121 @@ def gen_samp_script(r, nconf, ndraws, counts, seed):
     return lines, meta
 
 
+REBOUND_MODES = ["shrunk", "disjoint", "enlarged", "degenerate", "regenerated"]
+
+
+def rebound_interval(r, lo, hi, mode):
+    w = hi - lo
+    if not (w > 0) or not math.isfinite(w):
+        w = 1.0
+    w = min(w, 1e12)
+    if mode == "shrunk":
+        a = lo + w * r.uniform(0.2, 0.4)
+        return a, a + w * r.uniform(0.05, 0.3)
+    if mode == "disjoint":
+        g = w * r.uniform(0.1, 3) + 1e-3
+        if r.chance(1, 2):
+            a = hi + g
+            return a, a + w * r.uniform(0.1, 2)
+        b = lo - g
+        return b - w * r.uniform(0.1, 2), b
+    if mode == "enlarged":
+        return lo - w * r.uniform(0.5, 5), hi + w * r.uniform(0.5, 5)
+    if mode == "degenerate":
+        a = r.choice([lo, hi, lo + w * 0.5, hi + w, lo - 2 * w])
+        return a, a
+    lo2, hi2, _ = gen_range(r, False)
+    return lo2, hi2
+
+
+def rebound_variant(r, sp, mode):
+    """same structure, new bounds on every leaf whose bounds can be set"""
+    k = sp[0]
+    if k in ("rv", "se2", "se3"):
+        rs = [rebound_interval(r, l, h, mode) for l, h in zip(sp[1], sp[2])]
+        return (k, [x[0] for x in rs], [x[1] for x in rs])
+    if k == "time" and sp[1]:
+        lo, hi = rebound_interval(r, sp[2], sp[3], mode)
+        return ("time", True, lo, hi)
+    if k == "disc":
+        lo, hi = sp[1], sp[2]
+        w = max(hi - lo, 1)
+        if mode == "shrunk":
+            a = lo + (hi - lo) // 3
+            return ("disc", a, a + (hi - lo) // 3)
+        if mode == "disjoint":
+            return ("disc", hi + 1 + r.below(3 * w), hi + 1 + 3 * w + r.below(2 * w)) if r.chance(1, 2) else \
+                   ("disc", lo - 1 - 5 * w, lo - 1 - r.below(3 * w))
+        if mode == "enlarged":
+            return ("disc", lo - r.range(1, 3 * w), hi + r.range(1, 3 * w))
+        if mode == "degenerate":
+            a = r.choice([lo, hi, hi + w, lo - w])
+            return ("disc", a, a)
+        a = r.range(-50, 50)
+        return ("disc", a, a + r.choice([0, 1, 5, 100]))
+    if k == "cmp":
+        return ("cmp", [(w, rebound_variant(r, sub, mode)) for w, sub in sp[1]])
+    if k == "wrap":
+        return ("wrap", rebound_variant(r, sp[1], mode))
+    return sp
+
+
+def settable(sp):
+    k = sp[0]
+    if k in ("rv", "se2", "se3", "disc"):
+        return True
+    if k == "time":
+        return sp[1]
+    if k == "cmp":
+        return any(settable(sub) for _, sub in sp[1])
+    if k == "wrap":
+        return settable(sp[1])
+    return False
+
+
+def gen_rebound_script(r, nconf, ndraws, counts, seed):
+    lines = ["spacebounds seed=%d" % seed]
+    meta = []
+    while len(meta) < nconf:
+        sp = gen_space(r)
+        c = r.below(10)
+        if c < 3:        # SE2 / SE3 (compound samplers over a RealVector component), alone, wrapped or nested
+            rs = [(lo, hi if lo < hi else lo + 1.0) for lo, hi, _ in (gen_range(r, False) for _ in range(3))]
+            se = ("se2", [x[0] for x in rs[:2]], [x[1] for x in rs[:2]]) if r.chance(1, 2) else \
+                 ("se3", [x[0] for x in rs], [x[1] for x in rs])
+            sp = [se, ("wrap", se), ("cmp", [(1.0, se), (gen_weight(r), gen_leaf_space(r))])][c]
+        if not legal(sp) or not settable(sp):
+            continue
+        kind = r.choice(["u", "n", "g"])
+        which = r.choice(["d", "d", "wrapcmp", "vss", "scoped"])
+        if sp[0] == "cmp" and sp[1] and r.chance(1, 3):
+            which = "sub %d" % r.below(len(sp[1]))
+        if which == "scoped":
+            kind = "u"
+        if which == "vss" and kind == "g":
+            kind = "n"
+        nst = r.range(2, 4)
+        modes = [r.choice(REBOUND_MODES) for _ in range(nst - 1)]
+        stages = [sp]
+        for m in modes:
+            stages.append(rebound_variant(r, stages[-1], m))
+        ext = extent(sp)
+        d = 0.0 if kind == "u" else ext * r.choice([0.0, 0.2, 1.0, 100.0])
+        if any(lf[0] == "d" for lf in leaves(sp)):
+            d = min(d, 1e6)
+        toks = ["rebound", kind, which, str(ndraws), fb(d), str(nst)]
+        for stg in stages:
+            toks += sp_tokens(stg) + state_tokens(r, stg, False)
+        lines.append(" ".join(toks))
+        meta.append({"space": sp, "kind": kind, "which": which, "modes": modes, "dist": d})
+        counts("rebound:" + kind)
+        counts("rebound-sampler:" + which.split()[0])
+        for m in modes:
+            counts("rebound-mode:" + m)
+        counts("rebound-space:" + sp[0])
+    return lines, meta
+
+
 VS_NAMES = ["uniform", "gaussian", "obstacle", "bridge", "maxclear", "minclear"]
 
 
@@ -677,6 +794,46 @@ def run_samp(ck, hbin, lines, meta, pre=None):
     return ok
 
 
+def run_rebound(ck, hbin, lines, meta, pre=None):
+    """samplers allocated under earlier bounds must follow the CURRENT bounds of their space"""
+    impl, rc, err = pre if pre is not None else ck.run_bin(hbin, lines)
+    impl = impl or []
+    ck.traces_validated += 1
+    ok = True
+    nrep = 0
+    if rc != 0:
+        ck.report({"engine": "spacebounds", "clause": "harness-exit", "what": "harness exited with %s on rebound runs" % rc},
+                  script=lines, observed=(err or "")[-2000:], engine="spacebounds")
+        return False
+    for i, m in enumerate(meta):
+        line = impl[i] if i < len(impl) else "<missing>"
+        if line.startswith("skip"):
+            ck.count("rebound:skipped(" + line.split()[1] + ")")
+            continue
+        h = kv(line)
+        ck.case(("rebound", lines[0], lines[i + 1]), True)
+        try:
+            bads = [int(x) for x in h["bad"].split(",")]
+            ck.count("rebound-outputs-checked", int(h["n"]) * len(bads))
+        except Exception:
+            bads = None
+        if bads is None or any(bads):
+            kinds = sorted(set(lf[0] for lf in leaves(m["space"])))
+            stage = next((j for j, b in enumerate(bads or []) if b), None)
+            rec = {"engine": "spacebounds", "op": "rebound", "clause": "sampler-inbounds-after-setBounds", "sampler": m["kind"],
+                   "which": m["which"].split()[0], "leaf_kinds": "".join(kinds),
+                   "mode": m["modes"][stage - 1] if stage else "stage-1",
+                   "what": "a sampler allocated before setBounds() produced a state outside the current bounds: " + line[:300]}
+            if ck.report(rec, script=[lines[0], lines[i + 1]], observed=[line], engine="spacebounds"):
+                why = "sampler object ignores the current bounds" if stage else "sampler output out of bounds before any bound change"
+                ck.log("property failure: %s (%s %s, %s)" % (why, m["kind"], m["which"], line[:120]))
+                ok = False
+                nrep += 1
+                if nrep >= 3:
+                    break
+    return ok
+
+
 def run_vreal(ck, hbin, lines, meta, pre=None):
     impl, rc, err = pre if pre is not None else ck.run_bin(hbin, lines)
     impl = impl or []
@@ -841,6 +998,20 @@ def run(ck):
         if len(ck.violations) >= 3:
             break
 
+    # (b') bounds changed after the sampler objects were allocated
+    nscripts, nconf, ndraws = (8, 40, 2000) if quick else (24, 80, 10000)
+    jobs = []
+    for i in range(nscripts):
+        r = ck.rng.fork("rebound%d" % i)
+        jobs.append(gen_rebound_script(r, nconf, ndraws, counts, seed=ck.seed * 1000 + 800 + i))
+    with ThreadPoolExecutor(max_workers=12) as ex:
+        res = list(ex.map(lambda j: ck.run_bin(hbin, j[0]), jobs))
+    for (lines, meta), pre in zip(jobs, res):
+        run_rebound(ck, hbin, lines, meta, pre=pre)
+        ck.count("scripts:rebound")
+        if len(ck.violations) >= 3:
+            break
+
     # (c') valid-state samplers over the real samplers and a recorded pseudo-random predicate
     nscripts, nconf, iters = (12, 30, 400) if quick else (24, 60, 2000)
     jobs = []
@@ -881,6 +1052,10 @@ def replay(ck, data):
                 bad = True
         if ln.startswith("samp") and "bad=0" not in o:
             bad = True
+        if ln.startswith("rebound") and not o.startswith("skip"):
+            b = kv(o).get("bad", "1")
+            if any(x != "0" for x in b.split(",")):
+                bad = True
         if ln.startswith("vreal") and any(k + "=0" not in o for k in ("badBounds", "badLast", "nearLast", "badPred", "badClr")):
             bad = True
         if ln.startswith("enf") and "sat2=1" not in o and (data.get("record") or {}).get("clause") == "enforce-inbounds":
